@@ -3,7 +3,7 @@
    error-carrying interpreter (C18/XInterp.v) over xeval / xcall_macro / xexec / xexec_list; the
    list-walking combinators each get a lemma of their own.  The statement about the shared
    interpreter Lang/Interp.v follows through C18/XAgree.v. *)
-From MJ Require Import Common.Base Lang.Syntax Lang.Meta Lang.Interp C09.Spec C18.Old C18.Tracker C18.Runtime C18.XInterp C18.XAgree C18.NMeta C18.NTracker.
+From MJ Require Import Common.Base Lang.Syntax Lang.Meta Lang.Interp Lang.Facts C09.Spec C18.Old C18.Tracker C18.Runtime C18.XInterp C18.XAgree C18.NMeta C18.NTracker.
 
 Section Main.
 Variable c : cfg.
@@ -71,6 +71,9 @@ Proof.
   { intros l Hl. destruct (rev l) eqn:Er; [exact I|]. rewrite Forall_forall in Hl. apply Hl, in_rev. rewrite Er. left. reflexivity. }
   assert (Hchars : forall s : list Z, vgood C (VList (map (fun ch => VStr false [ch]) s))).
   { intros s. apply vgood_list, Forall_forall. intros x Hx. apply in_map_iff in Hx as (ch & <- & _). exact I. }
+  assert (Hitems : forall kvs, entries_all (vgood C) kvs -> vgood C (VList (map (fun '(k, x) => VList [k; x]) kvs))).
+  { intros kvs Hk. apply vgood_list. induction Hk as [|[k x] rest [Hk1 Hk2] Hrest IH]; cbn [map]; constructor; [|exact IH].
+    cbn [fst snd] in *. apply vgood_list. constructor; [exact Hk1|]. constructor; [exact Hk2|constructor]. }
   unfold do_filter, bind, u_not_undef. intros H Hv Ha.
   repeat match type of H with
          | context [if (f =? ?k) then _ else _] => destruct (f =? k)
@@ -89,6 +92,9 @@ Proof.
   inversion H; subst; clear H;
   first [ exact I | exact Hv | (apply Hlast; apply vgood_list; exact Hv) | apply Hchars
         | (apply vgood_list in Hv; inversion Hv; assumption)
+        | (apply vgood_map in Hv; inversion Hv as [|? ? [Hk0 Hx0] Hr0]; assumption)
+        | (apply vgood_list, (map_keys_all (vgood C)), vgood_map; exact Hv)
+        | (apply Hitems, vgood_map; exact Hv)
         | (inversion Ha; assumption) ].
 Qed.
 
@@ -99,13 +105,18 @@ Proof. revert i. induction fuel; intros i; cbn; [constructor|]. destruct (i <? n
 Lemma bind_target_ok o tg s item s' : bind_target tg s item = Ok s' -> sgood s -> vgood (s_clos s) item ->
   step_ok c o s s' /\ (forall t s0, nonempty t -> Inv c t s0 -> lmono c s0 s -> Inv c (assign_target tg t) s').
 Proof.
-  intros H Hg Hv. destruct tg as [x|x y]; cbn [bind_target assign_target] in *.
-  - inversion H; subst. split; [apply store_step_ok; auto|].
+  intros H Hg Hv. destruct tg as [x|x y]; cbn [assign_target].
+  - cbn [bind_target] in H. inversion H; subst. split; [apply store_step_ok; auto|].
     intros t s0 Hn Hi Hl. eapply Inv_assign; eauto.
     + eapply lmono_trans; [apply Hl|]. apply sext_lmono, store_sext, Hg.
     + apply store_local, Hg.
-  - destruct item; try discriminate. destruct l as [|a [|b [|? ?]]]; try discriminate. inversion H; subst.
-    apply vgood_list in Hv. inversion Hv as [|? ? Ha Hb']; subst. inversion Hb' as [|? ? Hb _]; subst.
+  - (* unpacking: a list into its items, a map into its keys *)
+    apply bind_target_pair_inv in H as (a & b & Hu & ->).
+    assert (Hab : Forall (vgood (s_clos s)) [a; b]).
+    { eapply (unpack_items_all (vgood (s_clos s))); [| |exact Hu].
+      - intros l ->. apply vgood_list, Hv.
+      - intros kvs ->. apply vgood_map, Hv. }
+    inversion Hab as [|? ? Ha Hb']; subst. inversion Hb' as [|? ? Hb _]; subst.
     assert (S1 := store_step_ok c o s x a Hg Ha).
     assert (Hb2 : vgood (s_clos (store s x a)) b) by (eapply vgood_mono; [apply store_clos_ext|exact Hb]).
     assert (S2 := store_step_ok c o (store s x a) y b (step_ok_sgood _ _ _ S1) Hb2).
@@ -302,6 +313,40 @@ Proof.
     + constructor; auto. cbn [snd]. eapply vgood_step; eauto.
 Qed.
 
+(* ---- map literals: k1 v1 k2 v2 .. ---- *)
+Lemma visit_pairs_soft' l t : nonempty t -> tsoft t (visit_pairs l t).
+Proof.
+  intros H. apply visit_pairs_soft; auto. apply Forall_forall. intros p _. split; intros t0; apply visit_expr_soft.
+Qed.
+
+Lemma xmap_eval_pairs_ok ev : xeval_spec ev -> forall l s t, sgood s -> nonempty t -> Inv c t s ->
+  epost (t_out (visit_pairs l t)) s (xmap_eval_pairs ev s l)
+        (fun p => step_ok c (t_out (visit_pairs l t)) s (snd p) /\ entries_all (vgood (s_clos (snd p))) (fst p)).
+Proof.
+  intros Hev. induction l as [|[ke ve] r IH]; intros s t Hg Hn Hi; cbn [xmap_eval_pairs].
+  - apply epost_ok. cbn. split; [apply step_ok_refl, Hg|constructor].
+  - change (visit_pairs ((ke, ve) :: r) t) with (visit_pairs r (visit_expr ve (visit_expr ke t))).
+    set (t1 := visit_expr ke t). set (t2 := visit_expr ve t1).
+    assert (Hn1 : nonempty t1) by (apply visit_expr_nonempty, Hn).
+    assert (Hn2 : nonempty t2) by (apply visit_expr_nonempty, Hn1).
+    assert (O12 : omono (t_out t1) (t_out t2)) by (apply visit_expr_omono, Hn1).
+    assert (O2T : omono (t_out t2) (t_out (visit_pairs r t2))) by (apply tsoft_omono, visit_pairs_soft', Hn2).
+    assert (O1T : omono (t_out t1) (t_out (visit_pairs r t2))) by (eapply omono_trans; eauto).
+    eapply (ev_step ev _ s s ke t); [exact Hev|apply pre_refl|exact Hg|exact Hn|exact Hi|exact O1T|].
+    intros k s1 A1 A2 A3 A4 A5 P1. fold t1 in A1, A3, A4.
+    eapply (ev_step ev _ s s1 ve t1); [exact Hev|exact P1|exact A5|exact A4|exact A3|exact O2T|].
+    intros v s2 B1 B2 B3 B4 B5 P2. fold t2 in B1, B3, B4.
+    eapply sub_step; [exact P2|apply omono_refl|apply (IH s2 t2 B5 B4 B3)|].
+    intros [kvs s3] [C1 C2]. cbn [fst snd] in *. apply epost_ok. cbn [fst snd].
+    assert (AB : step_ok c (t_out (visit_pairs r t2)) s s2).
+    { eapply step_ok_weaken; [eapply step_ok_trans; [apply A1|apply B1|exact O12]|exact O2T]. }
+    split.
+    + eapply step_ok_trans; [apply AB|apply C1|apply omono_refl].
+    + apply entries_all_cons; [| |exact C2].
+      * eapply vgood_step; [apply C1|]. eapply vgood_step; [apply B1|exact A2].
+      * eapply vgood_step; [apply C1|exact B2].
+Qed.
+
 (* ---- comparison chains ---- *)
 Lemma xcmp_chain_ok ev : xeval_spec ev -> forall (l : list (cmpop * expr)) left s t, sgood s -> nonempty t -> Inv c t s ->
   epost (t_out (visit_kw l t)) s (xcmp_chain m ev left s l) (EV (t_out (visit_kw l t)) s).
@@ -457,21 +502,23 @@ Lemma xwith_binds_ok ev : xeval_spec ev -> forall binds s t, sgood s -> nonempty
   epost (t_out (visit_binds binds t)) s (xwith_binds ev s binds)
         (fun s' => step_ok c (t_out (visit_binds binds t)) s s' /\ Inv c (visit_binds binds t) s').
 Proof.
-  intros Hev. induction binds as [|[x e] r IH]; intros s t Hg Hn Hi; cbn [xwith_binds].
+  intros Hev. induction binds as [|[tg e] r IH]; intros s t Hg Hn Hi; cbn [xwith_binds].
   - apply epost_ok. split; [apply step_ok_refl, Hg|exact Hi].
-  - change (visit_binds ((x, e) :: r) t) with (visit_binds r (t_assign x (visit_expr e t))).
+  - change (visit_binds ((tg, e) :: r) t) with (visit_binds r (assign_target tg (visit_expr e t))).
     assert (Hn1 := visit_expr_nonempty e t Hn).
-    assert (Hn2 : nonempty (t_assign x (visit_expr e t))) by (eapply tstep_nonempty, tstep_assign, Hn1).
-    set (T := visit_binds r (t_assign x (visit_expr e t))).
-    assert (O2 : omono (t_out (t_assign x (visit_expr e t))) (t_out T)) by (apply tstep_omono, visit_binds_step, Hn2).
+    assert (Sa : tstep (visit_expr e t) (assign_target tg (visit_expr e t))) by (apply assign_target_step, Hn1).
+    assert (Hn2 : nonempty (assign_target tg (visit_expr e t))) by (eapply tstep_nonempty, Sa).
+    set (T := visit_binds r (assign_target tg (visit_expr e t))).
+    assert (O2 : omono (t_out (assign_target tg (visit_expr e t))) (t_out T)) by (apply tstep_omono, visit_binds_step, Hn2).
     assert (O1 : omono (t_out (visit_expr e t)) (t_out T)).
-    { eapply omono_trans; [apply tstep_omono, tstep_assign, Hn1|exact O2]. }
+    { eapply omono_trans; [apply tstep_omono, Sa|exact O2]. }
     eapply (ev_step ev _ s s e t); [exact Hev|apply pre_refl|exact Hg|exact Hn|exact Hi|exact O1|].
     intros v s1 A1 A2 A3 A4 A5 P1.
-    assert (S1 := store_step_ok c (t_out (t_assign x (visit_expr e t))) s1 x v A5 A2).
-    assert (I1 : Inv c (t_assign x (visit_expr e t)) (store s1 x v)).
-    { eapply Inv_assign; [exact A4|exact A3|apply (step_ok_lmono _ _ _ S1)|apply store_local, A5]. }
-    assert (A1S : step_ok c (t_out T) s (store s1 x v)).
+    (* the right-hand side is evaluated completely, then its target is bound (which may fail to unpack) *)
+    apply lift_step; [exact P1|]. intros s2 H1.
+    destruct (bind_target_ok (t_out (assign_target tg (visit_expr e t))) tg s1 v s2 H1 A5 A2) as [S1 S2].
+    assert (I1 : Inv c (assign_target tg (visit_expr e t)) s2) by (apply (S2 (visit_expr e t) s1 A4 A3 (lmono_refl c s1))).
+    assert (A1S : step_ok c (t_out T) s s2).
     { eapply step_ok_trans; [apply A1|apply (step_ok_weaken c _ _ _ _ S1 O2)|exact O1]. }
     eapply epost_imp; [|eapply epost_rebase; [apply (pre_of_step _ _ _ A1S)|apply omono_refl|apply (IH _ _ (step_ok_sgood _ _ _ S1) Hn2 I1)]].
     intros s' [B1 B2]. split; auto. eapply step_ok_trans; [apply A1S|apply B1|apply omono_refl].
@@ -603,6 +650,9 @@ Proof.
   - (* list *)
     eapply sub_step; [apply pre_refl|apply omono_refl|apply (xmap_eval_ok _ He items s t Hg Hn Hi)|].
     intros [vs s1] [A1 A2]. apply epost_ok. split; [exact A1|apply vgood_list, A2].
+  - (* map literal *)
+    eapply sub_step; [apply pre_refl|apply omono_refl|apply (xmap_eval_pairs_ok _ He pairs s t Hg Hn Hi)|].
+    intros [kvs s1] [A1 A2]. apply epost_ok. split; [exact A1|]. cbn [fst snd] in *. apply vgood_map, map_of_pairs_all, A2.
   - (* neg *)
     eapply (ev_step _ _ s s e t); [exact He|apply pre_refl|exact Hg|exact Hn|exact Hi|apply omono_refl|].
     intros x s1 A1 _ _ _ _ P1. destruct x; try (apply epost_err; exact P1). apply epost_ok. split; [exact A1|exact I].
@@ -660,15 +710,21 @@ Proof.
     eapply (ev_step _ _ s s1 e2 _); [exact He|exact P1|exact A5|exact A4|exact A3|apply omono_refl|].
     intros k s2 B1 B2 _ _ _ P2.
     assert (AB : step_ok c (t_out (visit_expr e2 (visit_expr e1 t))) s s2) by (eapply step_ok_trans; [apply A1|apply B1|apply visit_expr_omono, A4]).
-    destruct (match x, k with VList l, VInt z => idx_list l z | _, _ => None end) eqn:Ei.
-    + apply epost_ok. split; [exact AB|]. cbn [fst snd]. destruct x; try discriminate. destruct k; try discriminate.
-      eapply idx_list_good; [apply vgood_list; eapply vgood_step; [apply B1|exact A2]|exact Ei].
+    destruct (get_item_opt x k) eqn:Ei.
+    + apply epost_ok. split; [exact AB|]. cbn [fst snd].
+      assert (Hx : vgood (s_clos s2) x) by (eapply vgood_step; [apply B1|exact A2]).
+      eapply (get_item_opt_all (vgood (s_clos s2))); [| |exact Ei].
+      * intros l ->. apply vgood_list, Hx.
+      * intros kvs ->. apply vgood_map, Hx.
     + apply lift_step; [exact P2|]. intros u Hu. apply epost_ok. split; [exact AB|]. eapply handle_undefined_good; eauto.
   - (* attr *)
     eapply (ev_step _ _ s s e t); [exact He|apply pre_refl|exact Hg|exact Hn|exact Hi|apply omono_refl|].
     intros x s1 A1 A2 _ _ _ P1.
-    destruct (match x with VLoop i n => loop_attr i n a | _ => None end) eqn:Ei.
-    + apply epost_ok. split; [exact A1|]. destruct x; try discriminate. eapply loop_attr_good; eauto.
+    destruct (get_attr_opt x a) eqn:Ei.
+    + apply epost_ok. split; [exact A1|]. cbn [fst snd].
+      eapply (get_attr_opt_all (vgood (s_clos s1))); [| |exact Ei].
+      * intros i n w _ Hw. eapply loop_attr_good; eauto.
+      * intros kvs ->. apply vgood_map, A2.
     + apply lift_step; [exact P1|]. intros u Hu. apply epost_ok. split; [exact A1|]. eapply handle_undefined_good; eauto.
   - (* filter *)
     assert (Hn1 := visit_expr_nonempty e t Hn).
@@ -878,6 +934,7 @@ Proof.
     assert (G0 : Forall (vgood (s_clos s1)) items0).
     { destruct iv; try discriminate; try (destruct (u_strictish _); try discriminate); injection E2 as <-;
       first [apply vgood_list; exact A2 | constructor
+            | (apply (map_keys_all (vgood (s_clos s1))), vgood_map; exact A2)
             | (apply Forall_forall; intros w Hw; apply in_map_iff in Hw as (ch & <- & _); exact I)]. }
     assert (A1T := step_ok_weaken c _ _ _ _ A1 O1T).
     (* the filter pass *)
@@ -915,13 +972,16 @@ Proof.
       * eapply step_ok_trans; [apply PreT| |apply omono_refl]. eapply step_ok_weaken; [apply B1|]. unfold T. rewrite t_pop_out. apply omono_refl.
       * intros _. eapply Inv_soft; [apply S6T|exact I6|apply (step_ok_lmono _ _ _ B1)].
     + unfold T. rewrite t_pop_out. apply omono_refl.
-  - (* set *)
+  - (* set: the right-hand side is evaluated completely before the target is bound *)
     assert (Hn1 := visit_expr_nonempty e t Hn).
-    eapply (ev_step _ _ s s e t); [exact He|apply pre_refl|exact Hg|exact Hn|exact Hi|rewrite t_assign_out; apply omono_refl|].
-    intros v s1 A1 A2 A3 A4 A5 P1. apply epost_ok.
-    assert (S1 := store_step_ok c (t_out (t_assign x (visit_expr e t))) s1 x v A5 A2). split.
-    + eapply step_ok_trans; [apply A1|apply S1|]. rewrite t_assign_out. apply omono_refl.
-    + intros _. eapply Inv_assign; [exact A4|exact A3|apply (step_ok_lmono _ _ _ S1)|apply store_local, A5].
+    assert (Oa : omono (t_out (visit_expr e t)) (t_out (assign_target t0 (visit_expr e t)))) by (apply tstep_omono, assign_target_step, Hn1).
+    eapply (ev_step _ _ s s e t); [exact He|apply pre_refl|exact Hg|exact Hn|exact Hi|exact Oa|].
+    intros v s1 A1 A2 A3 A4 A5 P1.
+    apply lift_step; [exact P1|]. intros s2 H1.
+    destruct (bind_target_ok (t_out (assign_target t0 (visit_expr e t))) t0 s1 v s2 H1 A5 A2) as [B1 B2].
+    apply epost_ok. split.
+    + eapply step_ok_trans; [apply A1|apply B1|exact Oa].
+    + intros _. apply (B2 (visit_expr e t) s1 A4 A3 (lmono_refl c s1)).
   - (* set block *)
     set (t2 := t_pop (walk_list body (t_push t))).
     assert (S2 : tsoft t t2) by (apply scoped_body_soft', Hn).
@@ -1159,8 +1219,8 @@ Definition X : name := 100.
 Definition M : name := 101.
 Definition Y : name := 102.
 Definition cfg0 := mkCfg Lenient [] false.
-Definition p_set := [SSet X (EVar X)].                                              (* {% set x = x %} *)
-Definition p_with := [SWith [(X, EVar X)] []].                                      (* {% with x = x %}{% endwith %} *)
+Definition p_set := [SSet (TVar X) (EVar X)].                                              (* {% set x = x %} *)
+Definition p_with := [SWith [(TVar X, EVar X)] []].                                      (* {% with x = x %}{% endwith %} *)
 Definition p_setblock := [SSetBlock X [SEmit (EVar X)] None].                       (* {% set x %}{{ x }}{% endset %} *)
 Definition p_macro_default := [SMacro M [X] [(X, EVar X)] [SEmit (EVar X)]; SEmit (ECall M [] [])].   (* {% macro m(x=x) %}{{ x }}{% endmacro %}{{ m() }} *)
 Definition p_macro_default2 := [SMacro M [Y; X] [(X, EVar Y)] [SEmit (EVar X)]; SEmit (ECall M [EConst (LInt 1)] [])]. (* {% macro m(y, x=y) %} *)
@@ -1182,7 +1242,7 @@ Proof. split; vm_compute; reflexivity. Qed.
    a call block and a slice, on a context of plain values: renders "8182" and "2", asks six times *)
 Definition demo_ctx := mkCfg Lenient [(X, VList [VInt 1; VInt 2]); (Y, VInt 5)] false.
 Definition demo_body : list stmt :=
-  [ SSet 104 (EConst (LInt 3));
+  [ SSet (TVar 104) (EConst (LInt 3));
     SMacro M [103] [(103, EVar Y)] [SEmit (EBin OAdd (EVar 103) (EVar 104)); SEmit (ECall N_caller [] [])];
     SFor (TVar 105) (EVar X) (Some (ECmp (EVar 105) [(CLt, EVar Y)])) [SCallBlock M [] [SEmit (EVar 105)]] None false;
     SEmit (EFilter F_length (ESlice (EVar X) (EConst LNone) (EConst LNone) (EConst (LInt (-1)))) []);
@@ -1196,4 +1256,42 @@ Proof. eexists. split; [vm_compute; reflexivity|]. split; reflexivity. Qed.
 Definition demo_fail : list stmt :=
   [ SEmit (EVar X); SSetAttr Y (EVar 107); SEmit (EVar 108) ].
 Lemma demo_fails : exists a, run_asks demo_ctx 60 demo_fail = ErrE E_InvalidOperation a /\ length a = 3%nat.
+Proof. eexists. split; [vm_compute; reflexivity|reflexivity]. Qed.
+
+(* ---- Lang v2: maps and unpacking assignments ---- *)
+(* the pre-fix tracker marked BOTH names of an unpacking target assigned before it visited the right-hand
+   side (set and with), also when the assignment then fails to unpack; a map literal's keys and values are
+   visited like any other sub-expression *)
+Definition p_set_pair := [SSet (TPair X Y) (EList [EVar X; EVar Y])].               (* {% set x, y = [x, y] %} *)
+Definition p_with_pair := [SWith [(TPair X Y, EList [EVar Y; EVar X])] []].         (* {% with (x, y) = [y, x] %}{% endwith %} *)
+Definition p_set_pair_fail := [SSet (TPair X Y) (EVar Y)].                          (* {% set x, y = y %}: asks y, then cannot unpack *)
+Definition p_set_map := [SSet (TVar X) (EMap [(EVar X, EConst (LInt 1))])].         (* {% set x = {x: 1} %} *)
+Definition refutation_programs_v2 := [p_set_pair; p_with_pair; p_set_pair_fail; p_set_map].
+
+Lemma refuted_before_fix_v2_proof :
+  forallb (asked_not_reported find_undeclared_old cfg0 50) refutation_programs_v2 = true /\
+  forallb (fun p => negb (asked_not_reported find_undeclared cfg0 50 p)) refutation_programs_v2 = true.
+Proof. split; vm_compute; reflexivity. Qed.
+
+(* non-vacuity with maps, success: {% set a, b = {"p": x, "q": y} %} (unpacks into the keys "p", "q"),
+   a loop over a map literal whose key is a variable, a `with` that unpacks [{"p": v}, 1] and reads the
+   map by attribute and by subscript, the length of a map from a context that holds a map: renders
+   "pq771" and asks five times (x, y, z, v, the context map) *)
+Definition demo_ctx2 := mkCfg Lenient [(X, VList [VInt 1; VInt 2]); (Y, VInt 5); (110, VInt 7);
+                                        (111, VMap (map_of_pairs [(VStr false [97], VInt 1)]))] false.
+Definition demo_map_body : list stmt :=
+  [ SSet (TPair 104 105) (EMap [(EConst (LStr [112]), EVar X); (EConst (LStr [113]), EVar Y)]);
+    SFor (TVar 106) (EMap [(EVar 104, EVar 107)]) None [SEmit (EVar 106); SEmit (EVar 105)] None false;
+    SWith [(TPair 108 109, EList [EMap [(EConst (LStr [112]), EVar 110)]; EConst (LInt 1)])]
+          [SEmit (EAttr (EVar 108) 1112); SEmit (EItem (EVar 108) (EVar 104))];
+    SEmit (EFilter F_length (EVar 111) []) ].
+Lemma demo_maps_run : exists s, run_asks demo_ctx2 60 demo_map_body = OkE s /\ plain_context demo_ctx2 = true /\
+  output_of s = [112; 113; 55; 55; 49] /\ length (s_asks s) = 5%nat.
+Proof. eexists. split; [vm_compute; reflexivity|]. repeat split; reflexivity. Qed.
+
+(* ... failure: {{ x }}{% set a, b = [y, u, v] %}{{ w }} evaluates the whole right-hand side (asking y, u, v),
+   then fails to unpack three items into two names; the third statement is not reached *)
+Definition demo_unpack_fail : list stmt :=
+  [ SEmit (EVar X); SSet (TPair 104 105) (EList [EVar Y; EVar 107; EVar 108]); SEmit (EVar 109) ].
+Lemma demo_unpack_fails : exists a, run_asks demo_ctx2 60 demo_unpack_fail = ErrE E_CannotUnpack a /\ length a = 4%nat.
 Proof. eexists. split; [vm_compute; reflexivity|reflexivity]. Qed.
